@@ -219,7 +219,7 @@ func (g *gen) message(track int) []byte {
 	switch {
 	case x < 0.10:
 		g.feat["meta"] = true
-		switch g.r.Intn(5) {
+		switch g.r.Intn(7) {
 		case 0:
 			return smf.MetaText(fmt.Sprintf("t%d", g.r.Intn(100)))
 		case 1:
@@ -229,8 +229,11 @@ func (g *gen) message(track int) []byte {
 		case 3:
 			g.feat["tempo_change"] = true
 			return smf.MetaTempo(float64(hx.Pick(g.r, 300, 450, 600, 900, 1200)))
-		default:
+		case 4:
 			return smf.MetaTimeSig(3, 4, 24, 8)
+		default: // a meta type the library has no name for: still a meta event, never to be sent
+			g.feat["meta_unknown_type"] = true
+			return smf.MetaUndefined([]byte{0x0A, 0x4B, 0x60, 0x7E, 0x10}[g.r.Intn(5)], []byte{byte(g.r.Intn(128))})
 		}
 	case x < 0.15 && !g.many:
 		g.feat["sysex"] = true
